@@ -159,8 +159,6 @@ def text(b):
         return b
     if b[:2] == b'\xfe\xff':
         return b[2:].decode('utf-16-be', 'replace')
-    if b[:3] == b'\xef\xbb\xbf':
-        return b[3:].decode('utf-8', 'replace')
     return b.decode('latin-1')
 
 
@@ -273,7 +271,7 @@ class PDF(object):
     def _objstm(self, num):
         if num not in self.objstms:
             st = self.get(num)
-            body, ps = self.decode(st), None
+            body = self.decode(st)
             n, first = st.dict['N'], st.dict['First']
             head = Parser(body[:first])
             pairs = [(head.obj(), head.obj()) for _ in range(n)]
@@ -282,12 +280,11 @@ class PDF(object):
 
     def res(self, v):
         """resolve an indirect reference (repeatedly)"""
-        hops = 0
-        while isinstance(v, Ref):
-            v = self.get(v[0]); hops += 1
-            if hops > 50:
-                raise PDFError('reference loop')
-        return v
+        for _ in range(50):
+            if not isinstance(v, Ref):
+                return v
+            v = self.get(v[0])
+        raise PDFError('reference loop')
 
     # -- AcroForm --------------------------------------------------------------
     def acroform(self):
@@ -370,22 +367,15 @@ class PDF(object):
 
 
 def _unpredict(data, cols):
-    """undo PNG row filters (predictor >= 10)"""
-    out, prev, rl = bytearray(), bytearray(cols), cols + 1
-    for r in range(0, len(data), rl):
-        ft, row = data[r], bytearray(data[r + 1:r + rl])
+    """undo PNG row filters (predictor >= 10), one byte per sample"""
+    out, prev = bytearray(), bytearray(cols)
+    for r in range(0, len(data), cols + 1):
+        ft, row = data[r], bytearray(data[r + 1:r + cols + 1])
         for i in range(len(row)):
-            a = row[i - 1] if i else 0
-            b, c = prev[i], (prev[i - 1] if i else 0)
-            if ft == 1:
-                row[i] = (row[i] + a) & 255
-            elif ft == 2:
-                row[i] = (row[i] + b) & 255
-            elif ft == 3:
-                row[i] = (row[i] + (a + b) // 2) & 255
-            elif ft == 4:
-                pa, pb, pc = abs(b - c), abs(a - c), abs(a + b - 2 * c)
-                row[i] = (row[i] + (a if pa <= pb and pa <= pc else b if pb <= pc else c)) & 255
+            a, b, c = (row[i - 1] if i else 0), prev[i], (prev[i - 1] if i else 0)
+            pa, pb, pc = abs(b - c), abs(a - c), abs(a + b - 2 * c)
+            paeth = a if pa <= pb and pa <= pc else b if pb <= pc else c
+            row[i] = (row[i] + (0, a, b, (a + b) // 2, paeth)[ft]) & 255
         out += row
         prev = row
     return bytes(out)
